@@ -22,6 +22,7 @@ RULE = ('Generated: a database built with k-mer spec D, query / reference signat
         'output absent / sentinel untouched; otherwise exit 0 and every distance equals R-JAC of R-KMER signatures computed under the '
         'parameters of the pre-computed side / the database. Non-trivial: a command joining two sources whose specs differ; distinct by '
         'case hash.')
+RULE += ' Further: the default spec given explicitly; a warm-up run with other parameters on the same genome files; signature files sharing one file name in different directories.'
 ASSUMPTIONS = ['explicit -k/-p values respect the CLI limits (k >= 5, prefix length >= 2)', 'commands are invoked in-process through click.testing.CliRunner']
 DEADLINE_S = {'quick': 240, 'thorough': 2400}
 DEFAULT_SPEC = (11, 'ATGAC')
